@@ -77,6 +77,18 @@ mod h {
     range_harnesses!(isize, usize, t_isize);
     range_harnesses!(usize, usize, t_usize);
 
+    // ---- half-open float range: start <= x < end for every finite range and every raw output (loop-free, bit-precise f64: complete)
+    mod t_f64 {
+        use super::*;
+        #[kani::proof]
+        fn range_in() {
+            let (s, e, raw): (f64, f64, u64) = (kani::any(), kani::any(), kani::any());
+            kani::assume(s.is_finite() && e.is_finite() && s < e);
+            let r: f64 = (s..e).gen_from_u64(raw);
+            assert!(s <= r && r < e);
+        }
+    }
+
     // ---- shuffle returns a rearrangement (BOUNDED: slice length <= 4, generator state symbolic)
     fn shuffle_n<const N: usize>() {
         let seed: u64 = kani::any();
